@@ -554,6 +554,8 @@ impl JobServer {
             write_tokens(self.params.cheat_fds.1, state.cheats as usize)
                 .map_err(RedoError::opaque_error)?;
         } else if self.params.top_level == 0 && state.my_tokens == 0 {
+            #[cfg(feature = "verif")]
+            crate::verif::point("js.cheatwrite", "1 0 0");
             // We did not create this jobserver and are about to exit with no token
             // at all: the one we held was borrowed (a cheat) and the loan was
             // settled by the exit of our own child.  Our parent will still
